@@ -4,6 +4,7 @@ import (
 	"bytes"
 	"encoding/asn1"
 
+	"github.com/edutko/decipher/internal/asn1struct"
 	"github.com/edutko/decipher/internal/util"
 )
 
@@ -27,7 +28,10 @@ func isBinaryASN1(data []byte) bool {
 	if err != nil || len(extra) != 0 {
 		return false
 	}
-	return true
+	// one complete element is not yet DER: the content of every constructed element inside must be complete elements too
+	// (a hundred bytes of text that start "he" are an [APPLICATION 8] element of exactly the remaining length)
+	_, err = asn1struct.ParseRaw(data)
+	return err == nil
 }
 
 func IsJWT(_ string, data []byte, _ int64) bool {
